@@ -121,7 +121,7 @@ def build(e, cfg):
         else:
             tv = [float(((k * 7 + p) % 5) - 2 + (3 if k % (nsw * C) == 0 else 0)) for k in range(T * nsw * C)]
         pr.tv = tv
-        fs.add(d + '/templates.npy', vfs.npy_entry(_arr(tv, (T, nsw, C), cfg.get('tpl_dtype', 'float32'))))
+        fs.add(d + '/templates.npy', vfs.npy_entry(_arr(tv, (T, nsw, C), cfg.get('tpl_dtypes', [cfg.get('tpl_dtype', 'float32')] * P)[p])))
         # ---- index tables ----
         kk = 2      # same table width in every probe (a sorter setting), entries may repeat
         k2 = 2
@@ -202,7 +202,7 @@ class RealProbes(object):
                     np.array(pr['cm'], dtype=cfg.get('map_dtypes', ['int32'] * P)[p]))
             np.save(os.path.join(d, 'channel_positions.npy'), np.array(pr['pos'], dtype=np.float64).reshape(C, 2))
             np.save(os.path.join(d, 'templates.npy'),
-                    np.array(pr['tv'], dtype=cfg.get('tpl_dtype', 'float32')).reshape(T, nsw, C))
+                    np.array(pr['tv'], dtype=cfg.get('tpl_dtypes', [cfg.get('tpl_dtype', 'float32')] * P)[p]).reshape(T, nsw, C))
             tdt_ = cfg.get('table_dtypes', ['int32'] * P)[p]
             np.save(os.path.join(d, 'pc_feature_ind.npy'), np.array(pr['pci'], dtype=tdt_).reshape(T, -1))
             np.save(os.path.join(d, 'template_feature_ind.npy'), np.array(pr['tfi'], dtype=tdt_).reshape(T, -1))
